@@ -1,8 +1,114 @@
-from .base import Check
+"""C14 -- spatial indices report exactly the overlapping pairs (the
+schedule-dependent half): concurrent bottom-up BVH box construction with atomic
+arrival counters and concurrent recording, under simulated schedules, versus
+the all-pairs closed-interval scan."""
+import random
+import simdrv
+from .base import Check, key_str
 
 
-class Stub(Check):
+class C14(Check):
     prop = "C14"
+    level = "exploration"
+    flavours = ["par", "par-asan"]
+    assumptions = [
+        "only the schedule-dependent half of the property is decided here: internal boxes built by the lock-free arrival-counter "
+        "pass and pairs recorded concurrently, for seeded leaf sets; the exhaustive small-lattice enumeration of leaf sets in the "
+        "quantifier is model checking and is not attempted; the polygon k-d tree (QueryTwoDTree) is sequential and not simulated",
+        "sequentially consistent interleavings only",
+    ]
+
+    def explore(self):
+        rng = random.Random(self.seed * 48271 + 14)
+        hashes, nontrivial = set(), set()
+        stats = {"runs": 0, "steals": 0, "steps": 0, "sync_yields": 0, "asan_runs": 0, "crashes": 0}
+        kinds, sizes = {}, {}
+        samples = []
+        while self.time_left() > 8:
+            jobs = []
+            for _ in range(192):
+                n = rng.choice([2, 3, 4, 5, 7, 8, 9, 16, 17, 31, 33, 64, 100, 257, 1000, 1500, 4096])
+                thr = rng.choice([64, 64, 16, 1])
+                args = {"n": n, "kind": rng.randrange(8), "queries": rng.choice([8, 32, 128, 600]), "dseed": rng.randrange(1 << 30),
+                        "W": rng.choice([1, 2, 3, 4, 8, 16]), "stay": rng.choice([0, 30, 60, 85]), "own": rng.choice([30, 70, 95]),
+                        "seed": rng.randrange(1, 1 << 30), "thr": thr, "sync": rng.choice([0, 0.001, 0.01, 0.1, 1] if n <= 64 else ([0, 0.001, 0.01, 0.05] if n <= 300 else [0, 0.0005, 0.002]))}
+                fl = "par-asan" if rng.random() < 0.15 else "par"
+                jobs.append({"flavour": fl, "kind": "c14", "args": args, "timeout": 120})
+            res = self.pool.run_all(jobs, deadline=self.deadline)
+            for j, r in zip(jobs, res):
+                if r.get("skipped"):
+                    continue
+                if not r["ok"]:
+                    stats["crashes"] += 1
+                    cls = simdrv.classify_crash(r)
+                    key = {"clause": "crash_" + cls, "site": simdrv.asan_site(r.get("stderr", ""))}
+                    self.add_finding(key, "worker died: %s" % simdrv.crash_summary(r), {"property": "C14", "flavour": j["flavour"], "args": j["args"]})
+                    continue
+                self.cov["evaluations"] += 1
+                sim = r["res"]["sim"]
+                stats["runs"] += 1
+                stats["steals"] += sim["steals"]
+                stats["steps"] += sim["steps"]
+                stats["sync_yields"] += sim["sync_yields"]
+                if j["flavour"] == "par-asan":
+                    stats["asan_runs"] += 1
+                h = "%s:%s:%s" % (j["args"]["dseed"], j["args"]["n"], sim["hash"])
+                hashes.add(h)
+                if sim["steals"] > 0 or sim["sync_yields"] > 0:
+                    nontrivial.add(h)
+                kinds[str(j["args"]["kind"])] = kinds.get(str(j["args"]["kind"]), 0) + 1
+                sizes[str(j["args"]["n"])] = sizes.get(str(j["args"]["n"]), 0) + 1
+                mm = r["res"]["mismatch"]
+                if mm:
+                    key = {"clause": mm.split(":")[0], "detail": mm.split(":")[-1]}
+                    self.add_finding(key, "leaf set n=%d kind=%d dseed=%d under schedule seed=%d W=%d: %s" % (
+                        j["args"]["n"], j["args"]["kind"], j["args"]["dseed"], j["args"]["seed"], j["args"]["W"], mm),
+                        {"property": "C14", "flavour": j["flavour"], "args": j["args"]})
+                elif len(samples) < 6 and sim["steals"] > 0 and rng.random() < 0.02:
+                    samples.append({"args": j["args"], "decisions": sim["steps"], "steals": sim["steals"], "decision_hash": sim["hash"]})
+        self.cov.update({
+            "distinct_nontrivial": len(nontrivial),
+            "rule": "one evaluation = one seeded leaf set (kinds: lattice boxes, generic boxes, 2-point lattice, single cell, points, "
+                    "identical boxes, degenerate bounding box, identical Morton codes) built and queried (box, self, point, after "
+                    "UpdateBoxes, after Transform, 2D BVH) under one seeded schedule; distinct = distinct (leaf set, decision hash); "
+                    "non-trivial = at least one steal or one preemption at an atomic/mutex sync point",
+            "samples": samples, "leaf_set_kinds": kinds, "leaf_counts": sizes, "totals": stats,
+            "components": {"real": "Collider (radix tree, BuildInternalBoxes, FindCollision), BVHBuildFromBoxes/BVHCollisions, "
+                                   "oneTBB templates", "stub": "oneTBB runtime scheduler"},
+        })
+
+    def reproduce(self, replay, fresh=False):
+        r = self.run_job({"flavour": replay["flavour"], "kind": "c14", "args": replay["args"], "timeout": 120}, fresh)
+        if not r["ok"]:
+            return {"clause": "crash_" + simdrv.classify_crash(r), "site": simdrv.asan_site(r.get("stderr", ""))}, "crash"
+        mm = r["res"]["mismatch"]
+        if not mm:
+            return None, r["res"]["sim"]["hash"]
+        return {"clause": mm.split(":")[0], "detail": mm.split(":")[-1]}, r["res"]["sim"]["hash"]
+
+    def minimise(self, finding):
+        rep = {k: (dict(v) if isinstance(v, dict) else v) for k, v in finding["replay"].items()}
+        want = key_str(finding["key"])
+        a = dict(rep["args"])
+
+        def still(b):
+            k, _ = self.reproduce(dict(rep, args=b))
+            return k is not None and key_str(k) == want
+
+        for n in (2, 3, 4, 5, 8, 16, 33):
+            if n < a["n"] and still(dict(a, n=n)):
+                a["n"] = n
+                break
+        for q in (1, 2, 8):
+            if q < a["queries"] and still(dict(a, queries=q)):
+                a["queries"] = q
+                break
+        for W in (1, 2):
+            if W < a["W"] and still(dict(a, W=W)):
+                a["W"] = W
+                break
+        rep["args"] = a
+        return {"key": finding["key"], "desc": finding["desc"] + " [minimised: %s]" % simdrv.fmt_args(a), "replay": rep}
 
 
-CHECK = Stub()
+CHECK = C14()
